@@ -7,7 +7,7 @@ HARNESS = {
     'tree': dict(src=['h_tree.cpp'], hdr=5, rec=3),
     'heap': dict(src=['h_heap.cpp'], hdr=4, rec=3),
     'map': dict(src=['h_map.cpp'], hdr=5, rec=3),
-    'hash': dict(src=['h_hash.cpp'], hdr=7, rec=4),
+    'hash': dict(src=['h_hash.cpp'], hdr=7, rec=4, ldflags=['-Wl,--allow-multiple-definition']),
     'mem': dict(src=['h_mem.cpp'], hdr=4, rec=3),
     'c06t': dict(src=['h_c06t.cpp'], hdr=0, rec=0, lib_only=['memory', 'common']),
     'stray': dict(src=['h_stray.cpp'], hdr=6, rec=1),
@@ -20,15 +20,23 @@ HARNESS = {
     'c06': dict(src=['h_c06.cpp'], hdr=25, rec=1, shim='shim', libtag='shim', lib_only=['memory', 'common']),
 }
 
+def rel_share(ctx, harness, variant, workers):
+    if variant != 'asan' or not ctx['exes'].get((harness, 'rel')):
+        return 0
+    return workers // 4 if workers >= 8 else (1 if workers >= 3 else 0)
+
 def g2_jobs(harness, cases_per_worker, workers=16, variant='asan', tagx=''):
     def mk(ctx, Job):
-        exe = ctx['exes'][(harness, variant)]
         n = max(1, int(cases_per_worker * ctx['budget']))
         jobs = []
+        # quick tier: a share of the workers runs against the shipped configuration of the tree (gcc -O2 -DNDEBUG)
+        nrel = rel_share(ctx, harness, variant, workers)
         for w in range(workers):
+            var = 'rel' if w >= workers - nrel else variant
+            exe = ctx['exes'][(harness, var)]
             wid = ctx.get('next_wid', 0)      # unique per run: names the cur-/stats- files and keys the PRNG stream
             ctx['next_wid'] = wid + 1
-            jobs.append(Job('g2-%s-%s%s-%d' % (harness, variant, tagx, w),
+            jobs.append(Job('g2-%s-%s%s-%d' % (harness, var, tagx, w),
                             [exe, '--prop', ctx['prop']] + HARNESS[harness].get('replay_args', []) +
                             ['g2', str(ctx['seed']), str(wid), str(n), ctx['outdir']],
                             ctx['outdir'], cur=os.path.join(ctx['outdir'], 'cur-g2-%d.case' % wid),
@@ -38,10 +46,13 @@ def g2_jobs(harness, cases_per_worker, workers=16, variant='asan', tagx=''):
 
 def g1_jobs(harness, scopes, cap, variant='asan'):
     def mk(ctx, Job):
-        exe = ctx['exes'][(harness, variant)]
         jobs = []
-        for i, sc in enumerate(scopes):
-            tag = '%s-%s-%d' % (harness, variant, i)
+        todo = [(i, sc, variant) for i, sc in enumerate(scopes)]
+        if rel_share(ctx, harness, variant, 16) and scopes:
+            todo.append((len(scopes), scopes[0], 'rel'))       # the first scope again on the shipped configuration
+        for i, sc, var in todo:
+            exe = ctx['exes'][(harness, var)]
+            tag = '%s-%s-%d' % (harness, var, i)
             jobs.append(Job('g1-' + tag,
                             [exe, '--prop', ctx['prop']] + HARNESS[harness].get('replay_args', []) +
                             ['g1', sc, str(cap), ctx['outdir'], tag],
@@ -52,13 +63,15 @@ def g1_jobs(harness, scopes, cap, variant='asan'):
 
 def g7_jobs(harness, scripts_per_worker, workers=16, pair_max=12, variant='asan'):
     def mk(ctx, Job):
-        exe = ctx['exes'][(harness, variant)]
         n = max(1, int(scripts_per_worker * ctx['budget']))
         jobs = []
+        nrel = rel_share(ctx, harness, variant, workers)
         for w in range(workers):
+            var = 'rel' if w >= workers - nrel else variant
+            exe = ctx['exes'][(harness, var)]
             wid = ctx.get('next_wid', 0)
             ctx['next_wid'] = wid + 1
-            jobs.append(Job('g7-%s-%s-%d' % (harness, variant, w),
+            jobs.append(Job('g7-%s-%s-%d' % (harness, var, w),
                             [exe, '--prop', ctx['prop']] + HARNESS[harness].get('replay_args', []) +
                             ['g7', str(ctx['seed']), str(wid), str(n), ctx['outdir'], str(pair_max)],
                             ctx['outdir'], cur=os.path.join(ctx['outdir'], 'cur-g7-%d.case' % wid),
@@ -466,10 +479,14 @@ def plan(prop, tier, seed, budget):
             return mk
         def g6(iters, workers):
             def mk(ctx, Job):
-                exe = ctx['exes'][('c06t', 'tsan')]
                 n = max(100, int(iters * ctx['budget']))
-                return [Job('g6-tsan-%d' % w, [exe, 'run', str(ctx['seed']), str(w), str(n), ctx['outdir']], ctx['outdir'], harness='c06t',
-                            exe=exe, prop='C06') for w in range(workers)]
+                js = []
+                for w in range(workers):
+                    var = 'tsanrel' if w % 2 else 'tsan'        # half of the threads-under-TSan runs use the shipped configuration
+                    exe = ctx['exes'][('c06t', var)]
+                    js.append(Job('g6-%s-%d' % (var, w), [exe, 'run', str(ctx['seed']), str(w), str(n), ctx['outdir']], ctx['outdir'],
+                                  harness='c06t', exe=exe, prop='C06'))
+                return js
             return mk
         def g2c06(n):
             inner = g2_jobs('c06', n)
@@ -483,7 +500,7 @@ def plan(prop, tier, seed, budget):
             return mk
         P = dict(
             level='exploration',
-            builds=[('c06', 'asan'), ('c06t', 'tsan')],
+            builds=[('c06', 'asan'), ('c06t', 'tsan'), ('c06t', 'tsanrel')],
             optional_builds=[('c06', 'asan')],
             jobs=([g5a('two-all', 2000000, 16), g5a('three', 3000, 12), g2c06(100000), g6(5000, 8)] if q else
                   [g5a('two', 2000000, 16), g5a('two-all', 2000000, 16), g5a('three', 200000, 16), g5a('four', 60000, 16), g2c06(1500000), g6(400000, 8)]),
@@ -508,10 +525,15 @@ def plan(prop, tier, seed, budget):
     elif prop == 'C17':
         def c17a(mode, parts):
             def mk(ctx, Job):
-                exe = ctx['exes'][('hash', 'asan')]
-                return [Job('c17a-%s-%d' % (mode, k), [exe, '--prop', 'C17', 'c17a', mode, ctx['outdir'], '%s%d' % (mode, k), str(k), str(parts), str(ctx['seed'])],
-                            ctx['outdir'], cur=os.path.join(ctx['outdir'], 'cur-c17a-%s%d.case' % (mode, k)), harness='hash', exe=exe, prop='C17')
-                        for k in range(parts)]
+                # the arithmetic of the shipped build (gcc -O2) is evaluated as well: every fourth partition
+                rel = ctx['exes'].get(('hash', 'rel'))
+                js = []
+                for k in range(parts):
+                    exe = rel if rel and k % 4 == 3 else ctx['exes'][('hash', 'asan')]
+                    js.append(Job('c17a-%s-%d%s' % (mode, k, '-rel' if exe is rel else ''),
+                                  [exe, '--prop', 'C17', 'c17a', mode, ctx['outdir'], '%s%d' % (mode, k), str(k), str(parts), str(ctx['seed'])],
+                                  ctx['outdir'], cur=os.path.join(ctx['outdir'], 'cur-c17a-%s%d.case' % (mode, k)), harness='hash', exe=exe, prop='C17'))
+                return js
             return mk
         P = dict(
             level='exploration',
@@ -553,6 +575,11 @@ def plan(prop, tier, seed, budget):
         raise SystemExit('no plan for property %s' % prop)
     # the fault dimension: the property's own clauses also hold when some of the library's allocation requests are refused
     # (C16 decides what a refused request may do; here the container's own promises are judged under the same fault sets)
+    if True:
+        # the shipped configuration of every harness this plan uses (see VARIANTS['rel'] in vcheck)
+        P['builds'] = list(P['builds']) + [(h, 'rel') for (h, v) in P['builds'] if v == 'asan' and h in HARNESS and (h, 'rel') not in P['builds']]
+        if (('c06', 'asan') in P.get('optional_builds', [])):
+            P['optional_builds'] = list(P['optional_builds']) + [('c06', 'rel')]
     fh = FAULT_HARNESS.get(prop)
     if fh:
         P['jobs'] = list(P['jobs']) + [g7_jobs(fh, 250 if q else 4000, workers=2 if q else 4, pair_max=12)]
